@@ -31,7 +31,9 @@ LEVEL_TEXT = ("Theorems over all class tables (any number of classes, any bodies
               "its __init__ has) is provided by the same class as in CPython and equal when the providers are gap-free; the extension as a state machine (memo of "
               "_dataclass_parameters, InitVar members deleted after use, member-order walk, per-event set of seen paths) leaves on every class, after ANY history of "
               "on_package_loaded events through one extension object, exactly the stateless result - and does not with the memo dropped or the seen set kept (computed "
-              "counterexamples); a hand-written __init__ is kept by both; an undecorated class gets none; the 'dataclass' label equals dataclasses.is_dataclass for every class. "
+              "counterexamples); for loads in ANY order (the table changes between events) each class carries the stateless result on the table of its event, and "
+              "Class.parameters read after all loads is the stateless presented constructor of the final table exactly when the members of the lookup list are the final ones (decidable, evaluated by the model); "
+              "finding F12 has an exact predicate in the layout model (the base name resolves to the class itself) with a for-all-layouts sufficient condition; a hand-written __init__ is kept by both; an undecorated class gets none; the 'dataclass' label equals dataclasses.is_dataclass for every class. "
               "What the extension can see when the event fires is modelled too (module scopes after the visit and after expand_wildcards): for all layouts, expand_wildcards never changes a "
               "binding made on a later line than every star import, or hidden by the __all__ of the star-imported modules, so @dataclass stays recognised there (the complement is finding F10, computed); "
               "fired before expand_wildcards the event would not see star-imported bases (computed). "
@@ -57,7 +59,7 @@ LEVEL_NOTE = ("Trusted: Coq kernel, extraction, the renderer structure->source t
               "a load that raises is a violation again since the repair of F11).")
 MODEL = ("Model.C18_main", "run_C18")
 MODEL_TARGETS = ["Model/C18_main.vo"]
-COQ_TARGETS = ["Proofs/C18_dataclass.vo", "Proofs/C18_modes.vo", "Proofs/C18_machine.vo", "Proofs/C18_presented.vo", "Proofs/C18_top.vo", "Proofs/C18_order.vo", "Proofs/C18_layout.vo"]
+COQ_TARGETS = ["Proofs/C18_dataclass.vo", "Proofs/C18_modes.vo", "Proofs/C18_machine.vo", "Proofs/C18_presented.vo", "Proofs/C18_top.vo", "Proofs/C18_order.vo", "Proofs/C18_layout.vo", "Proofs/C18_wrongorder.vo"]
 RULE = ("systematic: every (parent decorator, child decorator) pair over {undecorated} + {init in (absent,True,False)} x {kw_only in (absent,True,False)} "
         "x fixed body pairs; every single field form (5 annotation kinds x value none/plain/each field(...) argument combination) under each kw-only "
         "context; seeded random diamonds A;B(A);C(A);D(B,C)|D(C,B)[;E(D)] over three names with decorated / undecorated / init=False joins and hand-written __init__ in a branch "
@@ -972,25 +974,35 @@ def load_order(split):
     return (split.get("order") if isinstance(split, dict) else None) or sorted(set(where))
 
 
-def event_mros(table, split, mros):
-    """The MRO Griffe can compute for each class when ITS package's on_package_loaded fires: over the classes of the packages
-    loaded so far (CPython's linearisation of the hierarchy with the other bases dropped).  `mros` itself for dependency-order loads."""
+def event_tables(table, split, mros):
+    """Wrong-order loads.  For each load position k the MRO lists as they stand when the k-th package's on_package_loaded fires:
+    CPython's linearisation of the hierarchy restricted to the classes of the packages loaded so far (for every visible class -
+    _dataclass_fields asks the parents for their MRO at the time of the child's event; [] for the classes not loaded yet).
+    Returns None for dependency-order loads or when a restricted hierarchy has no linearisation."""
     where, imp = split_parts(split)
     if imp != "xpkg" or not (isinstance(split, dict) and split.get("order")):
-        return mros
+        return None
     order = load_order(split)
     pos = {letter: k for k, letter in enumerate(order)}
-    out = [None] * len(table)
+    tabs = []
     for k in range(len(order)):
         vis = {i for i in range(len(table)) if pos[where[i]] <= k}
         sub = [{**c, "bases": [b for b in c["bases"] if b in vis] if i in vis else []} for i, c in enumerate(table)]
         m = cpython_mros(sub)
         if m is None:
             return None
-        for i in vis:
-            if pos[where[i]] == k:
-                out[i] = m[i]
-    return out
+        tabs.append([m[i] if i in vis else [] for i in range(len(table))])
+    return tabs
+
+
+def event_mros(table, split, mros):
+    """per class, the MRO computable when ITS package's event fires (`mros` itself for dependency-order loads)"""
+    tabs = event_tables(table, split, mros)
+    if tabs is None:
+        return None if (isinstance(split, dict) and split.get("order")) else mros
+    where, _ = split_parts(split)
+    pos = {letter: k for k, letter in enumerate(load_order(split))}
+    return [tabs[pos[where[i]]][i] for i in range(len(table))]
 
 
 def walk_events(rng, table, split):
@@ -1095,7 +1107,7 @@ def check_tables(ctx, tables, stream, use_model=True, mirror=False, loads=None, 
             del split["order"]
         prepared.append((ti, table, mros, split, load, walk_events(ctx.rng, table, split)))
     evm = [event_mros(t, sp, m) for _, t, m, sp, _, _ in prepared]      # the MROs computable when each class is walked (wrong-order loads: shorter)
-    evres = {}
+    evres, tvres = {}, {}
     masked = {}     # index in prepared -> model result for the table as Griffe reads it under finding F10 (decorators of shadowed modules unrecognised)
     if use_model:
         encs = [enc_table(t, m) for _, t, m, _, _, _ in prepared]
@@ -1105,11 +1117,15 @@ def check_tables(ctx, tables, stream, use_model=True, mirror=False, loads=None, 
         allres = ctx.model(encs + [enc_session(enc_table(t, evm[k])[1], range(len(t)), ev) for k, (_, t, _, _, _, ev) in enumerate(prepared)]
                            + [["layout", *layout_of(t, sp)] for _, t, _, sp, _, _ in prepared]
                            + [enc_table(mask_table(prepared[k][1], py_flags(prepared[k][1], prepared[k][3])), prepared[k][2]) for k, f in shadow]
-                           + [enc_table(prepared[k][1], evm[k]) for k in wrongs])
+                           + [enc_table(prepared[k][1], evm[k]) for k in wrongs]
+                           + [["session_tv", list(range(len(prepared[k][1]))),
+                               [[enc_table(prepared[k][1], tab)[1], ev] for tab, ev in zip(event_tables(prepared[k][1], prepared[k][3], prepared[k][2]), prepared[k][5])],
+                               encs[k][1]] for k in wrongs])
         np_ = len(prepared)
         mres, sres, lres = allres[:np_], allres[np_:2 * np_], allres[2 * np_:3 * np_]
         masked = {k: r for (k, _), r in zip(shadow, allres[3 * np_:])}
         evres = dict(zip(wrongs, allres[3 * np_ + len(shadow):]))
+        tvres = dict(zip(wrongs, allres[3 * np_ + len(shadow) + len(wrongs):]))
     else:
         mres = sres = lres = [None] * len(prepared)
     for pk, ((ti, table, mros, split, load, events), mr, sr, lr) in enumerate(zip(prepared, mres, sres, lres)):
@@ -1178,13 +1194,23 @@ def check_tables(ctx, tables, stream, use_model=True, mirror=False, loads=None, 
         if use_model and wrong:
             # Griffe's side of the model: members and labels as synthesised with the MRO of the event; the presented constructor is
             # looked up along the FINAL MRO (Class.parameters is computed when asked for)
-            eper = evres[pk][2]
+            # (Model/C18_machine.v : session_tv - every event with the table of its moment; C18_session_any_order, C18_presented_after_loads)
+            eper, tv = evres[pk][2], tvres[pk]
+            final_members = [x[0] for x in mr[2]]
             per = [list(x) for x in mr[2]]
             for i in range(len(table)):
-                per[i][0], per[i][2] = eper[i][0], eper[i][2]
-                prov = next((j for j in [i] + mros[i] if eper[j][0][0] != "absent"), None)
-                mem = eper[prov][0] if prov is not None else None
-                per[i][5] = [[prov] if prov is not None else [], [] if mem is None else ([[100 + prov, "PK", 0]] if mem[0] == "handwritten" else mem[1])]
+                if [tv[i][0], bool(tv[i][1])] != [eper[i][0], bool(eper[i][2])]:
+                    ctx.tie_failure("harness", "session_tv(model) vs the stateless model on the table of the class' event (theorem C18_session_any_order)",
+                                    {"class": i, "machine": tv[i][:2], "stateless": [eper[i][0], eper[i][2]]}, case)
+                per[i][0], per[i][2], per[i][5] = tv[i][0], tv[i][1], tv[i][2]
+            # the exact hypothesis of C18_presented_after_loads, evaluated with the model: the member each class of the lookup list got
+            # at its event is the one it would get now
+            stale_p = {i for i in range(len(table)) if any(eper[j][0] != final_members[j] for j in [i] + mros[i])}
+            for i in range(len(table)):
+                if i not in stale_p and dec_presented(per[i][5]) != dec_presented(mr[2][i][5]):
+                    ctx.tie_failure("harness", "theorem C18_presented_after_loads contradicted by the extracted model", {"class": i}, case)
+            ctx.observe("wrong-order loads: presented constructor provably the final one (hypothesis of C18_presented_after_loads)",
+                        f"{len(table) - len(stale_p)} of {len(table)} classes")
             mr = [mr[0], mr[1], per, mr[3], mr[4]]
         if use_model and not wrong:
             # what the extension (and the visitor) can see: the layout model (Model/C18_layout.v) vs the recorder extension,
@@ -1465,7 +1491,15 @@ def check_rebinding(ctx, n, use_model=True):
         cases.append((t, mros, ctx.rng.choice(["same module", "imported"])))
     if not cases:
         return
-    res = ctx.model([enc_table(t, m) for t, m, _ in cases] + [enc_table(t[1:], [[] for _ in t[1:]]) for t, _, _ in cases]) if use_model else None
+    def rebind_layout(t, shape):
+        """the two files as statements of Model/C18_layout.v, and per re-bound class (module, class object, base NAME)"""
+        std = std_stmts(t, (), 0, "from")
+        rest = [["classas", 1, 0]] + ([["class", 2]] if len(t) == 3 else [])
+        if shape == "same module":
+            return [[[std + [["class", 0]] + rest, []]], [[0, i, 0] for i in range(1, len(t))]]
+        return [[[[], []], [std + [["class", 0]], []], [std + [["from", 1, 0]] + rest, []]], [[2, i, 0] for i in range(1, len(t))]]
+    res = ctx.model([enc_table(t, m) for t, m, _ in cases] + [enc_table(t[1:], [[] for _ in t[1:]]) for t, _, _ in cases]
+                    + [["selfres", *rebind_layout(t, shape)] for t, _, shape in cases]) if use_model else None
     for k, (t, mros, shape) in enumerate(cases):
         names = ["K0", "K0", "K2"][:len(t)]
         src, _ = render(t)
@@ -1498,6 +1532,7 @@ def check_rebinding(ctx, n, use_model=True):
                     pkg = griffe.load(name, search_paths=[str(base)])
                 get = lambda nme: pkg["m"][nme]  # noqa: E731
             gv = [read_class(get(names[i]), i, {}) for i in range(1, len(t))]
+            selfres = [[b.path for b in get(names[i]).resolved_bases] == [get(names[i]).path] for i in range(1, len(t))]
         except Exception as e:  # noqa: BLE001
             ctx.case(case, True)
             ctx.tie_failure("harness", "griffe.load raised on a same-name re-binding", f"{type(e).__name__}: {e}", case)
@@ -1517,6 +1552,12 @@ def check_rebinding(ctx, n, use_model=True):
             reproduced = None
             if use_model:
                 real, sub = res[k], res[len(cases) + k]
+                # finding C18-F12 exactly (Model/C18_layout.v : self_resolved): the base name resolves to the class itself
+                m_self = bool(res[2 * len(cases) + k][i - 1][0])
+                ctx.observe("re-binding: base resolves to the class itself", m_self)
+                if m_self != selfres[i - 1]:
+                    ctx.tie_failure("correspondence", "self_resolved(layout model) vs Class.resolved_bases == [the class itself]",
+                                    {"class": i, "model": m_self, "impl": selfres[i - 1]}, case)
                 m_g, _, m_glabel, _, _, m_gp, _, _ = sub[2][i - 1]
                 m_gp = dec_presented(m_gp)
                 if m_gp[0] is not None:
